@@ -49,7 +49,7 @@ def parseORes (fields : String) : ORes :=
       else if k = "size" then { o with size := nat v }
       else if k = "etag" then { o with etag := String.ofList (unhexS v) }
       else if k = "lm" then
-        (if v.startsWith "x" then { o with lm := .bad (String.ofList (unhexS (v.drop 1).toString)) } else { o with lm := .at (int v) })
+        (if v.startsWith "x" then { o with lm := .bad (String.ofList (unhexS (v.drop 1).toString)) } else { o with lm := .at (int ((v.splitOn "@").headD v)) })   -- "@850" / "@asc": same instant, obsolete date form
       else if k = "cc" then { o with cc := (v.splitOn "|").map unhexS }
       else if k = "expires" then
         (if v = "bad" then { o with expires := .bad }
